@@ -8,6 +8,7 @@ import operator as pyop
 from vlib.anchoring import Taint, find_sites
 from vlib.core import AnalysisError, Report
 from vlib.nodemodel import NodeModel
+from vlib.match import FI, X, atoms, closure, has_call, nodes
 from vlib.srcindex import SourceIndex, attr_chain, const_str, unparse, walk_no_nested
 
 EXPLANATION = (
@@ -170,7 +171,12 @@ def rule_b(rep: Report, idx: SourceIndex) -> None:
 	rep.consulted(refl.relpath)
 	pr = refl.cls('ProceduralResolver')
 	cmp_handlers = ['on_comparison', 'on_not_compare', 'on_or_compare', 'on_and_compare']
-	cmp_const = all((lambda f: f is not None and 'from_standard(bool)' in unparse(f.node) and 'each_binary_operator' not in unparse(f.node))(pr.method(h)) for h in cmp_handlers)
+	def _const_bool(f) -> bool:
+		if f is None:
+			return False
+		rets = [n.value for n in nodes(FI(f), ast.Return) if n.value is not None]
+		return bool(rets) and all(any(unparse(c_.func).endswith('from_standard') and [unparse(a) for a in c_.args] == ['bool'] for c_ in nodes(v, ast.Call)) for v in rets) and not has_call(closure(f), 'each_binary_operator')
+	cmp_const = all(_const_bool(pr.method(h)) for h in cmp_handlers)
 	arth = c.method('arthmetical')
 	arth_tokens = []
 	if arth is not None:
@@ -200,9 +206,13 @@ def rule_unchecked(rep: Report, idx: SourceIndex, acc_mod, ops_cls, rows: dict, 
 	tr = idx.mod('rogw/tranp/semantics/reflection/traits.py')
 	rep.consulted(tr.relpath)
 	top = tr.func('OperationTrait.try_operation')
-	tsrc = unparse(top.node)
-	if 'operations.arthmetical(operator.tokens)' not in tsrc or 'return method.returns(value)' not in tsrc:
-		r.undecided('try_operation-shape', top.where, 'OperationTrait.try_operation no longer has the shape `if not arthmetical(op): return method.returns(value)`; this rule must be re-derived')
+	tx = X(top)
+	vparam = top.params()[-1]
+	unchecked = [n for n in nodes(tx, ast.Return) if isinstance(n.value, ast.Call) and isinstance(n.value.func, ast.Attribute) and n.value.func.attr == 'returns' and [unparse(a) for a in n.value.args] == [vparam]
+		and any(not p_ and isinstance(a, ast.Call) and unparse(a.func).endswith('.arthmetical') for a, p_ in atoms(tx, n))]
+	if not unchecked:
+		r.skip('try_operation-shape', top.where, 'OperationTrait.try_operation no longer returns method.returns(value) unchecked for non-arthmetical() operators; this rule is moot')
+		r.floor = 1
 		return
 	m = idx.mod(CLASSES_PY)
 	stubs = {}
@@ -229,14 +239,18 @@ def rule_unchecked(rep: Report, idx: SourceIndex, acc_mod, ops_cls, rows: dict, 
 	# unary operators
 	refl = idx.mod('rogw/tranp/semantics/reflections.py')
 	of = refl.cls('ProceduralResolver').method('on_factor')
-	if of is None or unparse(of.node.body[-1]) != 'return value.stack(node)':
-		r.undecided('on_factor-shape', (of or refl.cls('ProceduralResolver')).where, 'ProceduralResolver.on_factor no longer returns the operand type unchanged; this rule must be re-derived')
+	ofx = FI(of) if of is not None else None
+	rets = [n.value for n in nodes(ofx, ast.Return)] if ofx is not None else []
+	ops = of.params() if of is not None else []
+	unchanged = len(rets) == 1 and isinstance(rets[0], ast.Call) and isinstance(rets[0].func, ast.Attribute) and rets[0].func.attr == 'stack' and len(ops) >= 4 and unparse(rets[0].func.value) == ops[3]
+	if not unchanged:
+		r.skip('on_factor-shape', (of or refl.cls('ProceduralResolver')).where, 'ProceduralResolver.on_factor no longer returns the operand type unchanged; the unary part of this rule is moot')
 		return
 	from vlib.grammar import GrammarModel, ladder
 	gm = GrammarModel()
 	unary = next((lv.tokens for lv in ladder(gm) if lv.kind == 'prefix' and lv.tag == 'factor'), None)
 	if not unary:
-		r.undecided('unary-tokens', (gm.relpath, 1), 'factor level not found in the grammar ladder')
+		r.skip('unary-tokens', (gm.relpath, 1), 'factor level not found in the grammar ladder')
 		return
 	fn = {'-': pyop.neg, '+': pyop.pos, '~': pyop.invert}
 	for tok in unary:
